@@ -110,8 +110,10 @@ func toCtyNumber(val reflect.Value, path cty.Path) (cty.Value, error) {
 		}
 
 		if val.Type().AssignableTo(bigFloatType) {
+			// A big.Float copied by value still shares its mantissa with
+			// the original, so we make a real copy for the new value to own.
 			bigFloat := val.Interface().(big.Float)
-			return cty.NumberVal(&bigFloat), nil
+			return cty.NumberVal(new(big.Float).Copy(&bigFloat)), nil
 		}
 
 		fallthrough
